@@ -5,22 +5,35 @@
      psutil/_psposix.py  : disk_usage (158-191);  psutil/_common.py : usage_percent, snetio
    transcribed from the code.  No proofs here.
 
-   Text mode: the files are read with open_text() (str, universal newlines) while the
-   model works on bytes.  The two coincide when the content is printable ASCII plus
-   \t \n \v \f (no '\r', no \x1c-\x1f, nothing >= 0x7f): [ascii_ok].  Every modelled
-   call answers OutOfModel for other contents.
-   AssertionError (the `assert colon > 0`) is not an exception class of Base.Prelude:
-   the model answers OutOfModel there as well (the harness skips those inputs). *)
-From PV Require Export Base.Dec.
+   Text mode: the files are read with open_text() -- UTF-8 with surrogateescape, universal
+   newlines -- and then handled as str.  The model decodes the file bytes (Text.dec, Text.univ_nl)
+   and works on code points with str.split()/strip() blanks (Text.is_uws); names in the results are
+   str values, i.e. lists of code points.  Still outside the model: int() on a token that
+   contains a non-ASCII character (Text.py_int_str answers OutOfModel).
+   AssertionError is not an exception class of Base.Prelude: [xout] adds it locally.
+   Named-tuple field names and DISK_SECTOR_SIZE come from coq/Gen/C09_Tables.v, which is dumped
+   from the code on every run. *)
+From PV Require Export C09.Text.
+From PV Require Export Gen.C09_Tables.
 
-Definition ascii_ok_byte (c : Z) : bool :=
-  ((32 <=? c) && (c <=? 126)) || ((9 <=? c) && (c <=? 12)).
-Definition ascii_ok (l : bytes) : bool := forallb ascii_ok_byte l.
+(* outcome + AssertionError *)
+Inductive xout (A : Type) :=
+| XV (o : outcome A)
+| XAssert.
+Arguments XV {A} o.
+Arguments XAssert {A}.
+Definition xbind {A B} (x : xout A) (f : A -> xout B) : xout B :=
+  match x with
+  | XV (Val a) => f a
+  | XV (Exc e) => XV (Exc e)
+  | XV OutOfModel => XV OutOfModel
+  | XAssert => XAssert
+  end.
 
-(* ------------------------------------------------ Python dict (insertion ordered) *)
+(* ------------------------------------------------ Python dict (insertion ordered), str keys *)
 Section Dict.
   Context {V : Type}.
-  Fixpoint dset (k : bytes) (v : V) (d : list (bytes * V)) : list (bytes * V) :=
+  Fixpoint dset (k : text) (v : V) (d : list (text * V)) : list (text * V) :=
     match d with
     | [] => [(k, v)]
     | (k', v') :: r => if beqb k k' then (k', v) :: r else (k', v') :: dset k v r
@@ -30,15 +43,10 @@ End Dict.
 (* ------------------------------------------------ named tuples and the front end *)
 Definition ntuple := list (bytes * Z).        (* _asdict() items, in field order *)
 
-(* _common.snetio *)
-Definition snetio_fields : list bytes :=
-  [bs "bytes_sent"; bs "bytes_recv"; bs "packets_sent"; bs "packets_recv";
-   bs "errin"; bs "errout"; bs "dropin"; bs "dropout"].
-(* _pslinux.sdiskio *)
-Definition sdiskio_fields : list bytes :=
-  [bs "read_count"; bs "write_count"; bs "read_bytes"; bs "write_bytes";
-   bs "read_time"; bs "write_time"; bs "read_merged_count"; bs "write_merged_count";
-   bs "busy_time"].
+(* _common.snetio._fields, as found in the code *)
+Definition snetio_fields : list bytes := gen_snetio_fields.
+(* _pslinux.sdiskio._fields (getattr(_psplatform, "sdiskio", _common.sdiskio)), as found in the code *)
+Definition sdiskio_fields : list bytes := gen_sdiskio_fields.
 
 (* nt( *values ): TypeError unless exactly one value per field *)
 Definition mk_nt (fields : list bytes) (vals : list Z) : outcome ntuple :=
@@ -58,13 +66,16 @@ Fixpoint col_sums (rows : list (list Z)) : list Z :=
   end.
 
 Inductive front_res :=
-| RNone                                   (* None *)
-| RDict (d : list (bytes * ntuple))       (* {name: namedtuple} in dict order *)
+| RNone                                  (* None *)
+| RDict (d : list (text * ntuple))       (* {name: namedtuple} in dict order *)
 | RTuple (t : ntuple).
 
-(* psutil/__init__.py  net_io_counters / disk_io_counters with nowrap=False
+(* psutil/__init__.py  net_io_counters / disk_io_counters with nowrap=False, from the raw dict on:
+     if not rawdict: return {} if per else None
+     if per: rawdict[k] = nt( *fields ) for each item; return rawdict
+     else:   return nt( *(sum(x) for x in zip( *rawdict.values() )) )
    (nowrap=True on a cleared cache is the identity; wrap handling is property C10) *)
-Definition front (fields : list bytes) (per : bool) (raw : list (bytes * list Z)) : outcome front_res :=
+Definition front (fields : list bytes) (per : bool) (raw : list (text * list Z)) : outcome front_res :=
   match raw with
   | [] => Val (if per then RDict [] else RNone)
   | _ =>
@@ -85,53 +96,53 @@ Definition unpack16 (v : list Z) : outcome (list Z) :=
   | _ => Exc ValueError
   end.
 
-Definition net_line (line : bytes) : outcome (bytes * list Z) :=
+Definition net_line (line : text) : xout (text * list Z) :=
   match rfind_byte 58 line with
-  | None => OutOfModel              (* rfind = -1; assert colon > 0 : AssertionError *)
+  | None => XAssert                   (* rfind = -1; assert colon > 0 *)
   | Some colon =>
-    if Nat.eqb colon 0 then OutOfModel   (* assert colon > 0 : AssertionError *)
+    if Nat.eqb colon 0 then XAssert   (* assert colon > 0 *)
     else
-      let name := strip (firstn colon line) in
-      let fields := split_ws (strip (skipn (S colon) line)) in
-      do vals <- mapM py_int fields;
-      do t <- unpack16 vals;
-      Val (name, t)
+      let name := ustrip (firstn colon line) in
+      let fields := usplit (ustrip (skipn (S colon) line)) in
+      XV (do vals <- mapM py_int_str fields;
+          do t <- unpack16 vals;
+          Val (name, t))
   end.
 
-Fixpoint net_fold (d : list (bytes * list Z)) (ls : list bytes) : outcome (list (bytes * list Z)) :=
+Fixpoint net_fold (d : list (text * list Z)) (ls : list text) : xout (list (text * list Z)) :=
   match ls with
-  | [] => Val d
-  | l :: r => do kv <- net_line l; net_fold (dset (fst kv) (snd kv) d) r
+  | [] => XV (Val d)
+  | l :: r => xbind (net_line l) (fun kv => net_fold (dset (fst kv) (snd kv) d) r)
   end.
 
 (* _pslinux.net_io_counters *)
-Definition net_raw (content : bytes) : outcome (list (bytes * list Z)) :=
-  if ascii_ok content then net_fold [] (skipn 2 (lines_keep content)) else OutOfModel.
+Definition net_raw (content : bytes) : xout (list (text * list Z)) :=
+  net_fold [] (skipn 2 (lines_keep (text_of content))).
 
 (* psutil.net_io_counters(pernic, nowrap=False) *)
-Definition net_io_counters (pernic : bool) (content : bytes) : outcome front_res :=
-  do raw <- net_raw content; front snetio_fields pernic raw.
+Definition net_io_counters (pernic : bool) (content : bytes) : xout front_res :=
+  xbind (net_raw content) (fun raw => XV (front snetio_fields pernic raw)).
 
 (* ------------------------------------------------ /proc/diskstats, /sys/block *)
-Definition DISK_SECTOR_SIZE : Z := 512.
+Definition DISK_SECTOR_SIZE : Z := gen_disk_sector_size.
 
 Record dentry := {
-  e_name : bytes; e_reads : Z; e_writes : Z; e_rbytes : Z; e_wbytes : Z; e_rtime : Z; e_wtime : Z;
+  e_name : text; e_reads : Z; e_writes : Z; e_rbytes : Z; e_wbytes : Z; e_rtime : Z; e_wtime : Z;
   e_rmerged : Z; e_wmerged : Z; e_busy : Z }.
 
-Definition idx (fields : list bytes) (n : nat) : outcome bytes :=
+Definition idx (fields : list text) (n : nat) : outcome text :=
   of_option IndexError (nth_error fields n).
 Definition slice {A} (a b : nat) (l : list A) : list A := firstn (b - a) (skipn a l).
 
-Definition disk_line (line : bytes) : outcome dentry :=
-  let fields := split_ws line in
+Definition disk_line (line : text) : outcome dentry :=
+  let fields := usplit line in
   let flen := length fields in
   if Nat.eqb flen 15 then
     (* Linux 2.4 *)
     do name <- idx fields 3;
     do f2 <- idx fields 2;
-    do reads <- py_int f2;
-    do vs <- mapM py_int (slice 4 14 fields);
+    do reads <- py_int_str f2;
+    do vs <- mapM py_int_str (slice 4 14 fields);
     match vs with
     | [reads_merged; rbytes; rtime; writes; writes_merged; wbytes; wtime; _; busy_time; _] =>
       Val {| e_name := name; e_reads := reads; e_writes := writes; e_rbytes := rbytes; e_wbytes := wbytes;
@@ -142,7 +153,7 @@ Definition disk_line (line : bytes) : outcome dentry :=
   else if Nat.eqb flen 14 || Nat.leb 18 flen then
     (* Linux 2.6+, line referring to a disk *)
     do name <- idx fields 2;
-    do vs <- mapM py_int (slice 3 14 fields);
+    do vs <- mapM py_int_str (slice 3 14 fields);
     match vs with
     | [reads; reads_merged; rbytes; rtime; writes; writes_merged; wbytes; wtime; _; busy_time; _] =>
       Val {| e_name := name; e_reads := reads; e_writes := writes; e_rbytes := rbytes; e_wbytes := wbytes;
@@ -153,7 +164,7 @@ Definition disk_line (line : bytes) : outcome dentry :=
   else if Nat.eqb flen 7 then
     (* Linux 2.6+, line referring to a partition *)
     do name <- idx fields 2;
-    do vs <- mapM py_int (skipn 3 fields);
+    do vs <- mapM py_int_str (skipn 3 fields);
     match vs with
     | [reads; rbytes; writes; wbytes] =>
       Val {| e_name := name; e_reads := reads; e_writes := writes; e_rbytes := rbytes; e_wbytes := wbytes;
@@ -162,52 +173,52 @@ Definition disk_line (line : bytes) : outcome dentry :=
     end
   else Exc ValueError.
 
-(* read_sysfs: one (basename(root), content of root/stat) per directory holding a 'stat' file *)
+(* read_sysfs: one (basename(root) as bytes, content of root/stat) per directory holding a 'stat'
+   file; os.listdir/os.walk hand the name over as a str (os.fsdecode) *)
 Definition sysfs_entry (e : bytes * bytes) : outcome dentry :=
   let '(name, content) := e in
-  if ascii_ok content then
-    let fields := split_ws (strip content) in
-    do vs <- mapM py_int (firstn 10 fields);
-    match vs with
-    | [reads; reads_merged; rbytes; rtime; writes; writes_merged; wbytes; wtime; _; busy_time] =>
-      Val {| e_name := name; e_reads := reads; e_writes := writes; e_rbytes := rbytes; e_wbytes := wbytes;
-             e_rtime := rtime; e_wtime := wtime; e_rmerged := reads_merged; e_wmerged := writes_merged;
-             e_busy := busy_time |}
-    | _ => Exc ValueError
-    end
-  else OutOfModel.
+  let fields := usplit (ustrip (text_of content)) in
+  do vs <- mapM py_int_str (firstn 10 fields);
+  match vs with
+  | [reads; reads_merged; rbytes; rtime; writes; writes_merged; wbytes; wtime; _; busy_time] =>
+    Val {| e_name := dec name; e_reads := reads; e_writes := writes; e_rbytes := rbytes; e_wbytes := wbytes;
+           e_rtime := rtime; e_wtime := wtime; e_rmerged := reads_merged; e_wmerged := writes_merged;
+           e_busy := busy_time |}
+  | _ => Exc ValueError
+  end.
 
 Inductive disk_src :=
 | ProcDiskstats (content : bytes)                  (* {procfs}/diskstats exists *)
 | SysBlock (entries : list (bytes * bytes))        (* it does not, /sys/block does *)
 | NoSource.
 
-(* name.replace('/', '!') *)
-Definition py_replace_slash (name : bytes) : bytes := map (fun c => if c =? 47 then 33 else c) name.
-(* is_storage_device(name): os.access("/sys/block/<name>", F_OK); [sysblock] answers for a directory entry name *)
-Definition is_storage_device (sysblock : bytes -> bool) (name : bytes) : bool :=
+(* name.replace('/', '!') : every occurrence *)
+Definition py_replace_slash (name : text) : text := map (fun c => if c =? 47 then 33 else c) name.
+(* is_storage_device(name): os.access("/sys/block/<name>", F_OK) with including_virtual = True, i.e.
+   nothing but the presence of that directory entry decides (loop*, ram*, dm-*, md* included);
+   [sysblock] answers for a directory entry name given as str *)
+Definition is_storage_device (sysblock : text -> bool) (name : text) : bool :=
   sysblock (py_replace_slash name).
 
-Definition disk_store (perdisk : bool) (sysblock : bytes -> bool)
-           (d : list (bytes * list Z)) (e : dentry) : list (bytes * list Z) :=
+Definition disk_store (perdisk : bool) (sysblock : text -> bool)
+           (d : list (text * list Z)) (e : dentry) : list (text * list Z) :=
   if negb perdisk && negb (is_storage_device sysblock (e_name e)) then d
   else dset (e_name e)
          [e_reads e; e_writes e; e_rbytes e * DISK_SECTOR_SIZE; e_wbytes e * DISK_SECTOR_SIZE;
           e_rtime e; e_wtime e; e_rmerged e; e_wmerged e; e_busy e] d.
 
 (* _pslinux.disk_io_counters(perdisk) *)
-Definition disk_raw (perdisk : bool) (sysblock : bytes -> bool) (src : disk_src)
-  : outcome (list (bytes * list Z)) :=
+Definition disk_raw (perdisk : bool) (sysblock : text -> bool) (src : disk_src)
+  : outcome (list (text * list Z)) :=
   do ents <- match src with
-             | ProcDiskstats content =>
-               if ascii_ok content then mapM disk_line (lines_keep content) else OutOfModel
+             | ProcDiskstats content => mapM disk_line (lines_keep (text_of content))
              | SysBlock entries => mapM sysfs_entry entries
              | NoSource => Exc NotImplementedError
              end;
   Val (fold_left (disk_store perdisk sysblock) ents []).
 
 (* psutil.disk_io_counters(perdisk, nowrap=False) *)
-Definition disk_io_counters (perdisk : bool) (sysblock : bytes -> bool) (src : disk_src) : outcome front_res :=
+Definition disk_io_counters (perdisk : bool) (sysblock : text -> bool) (src : disk_src) : outcome front_res :=
   do raw <- disk_raw perdisk sysblock src; front sdiskio_fields perdisk raw.
 
 (* ------------------------------------------------ disk_usage *)
